@@ -212,6 +212,10 @@ type verdict struct {
 	Ask        []fw.Capability
 	PluginRuns bool
 	KnownClass string // non-empty: rejection that rests only on this clause (for known-finding keys)
+	// RevForbidden: the statement FORBIDS the native revocation check - the level skips revocation, or a usable plugin
+	// declares the revocation capability (which replaces the native check). Independent of where the reference
+	// decision stops: a verifier that evaluates further validations after an enforced failure is not wrong.
+	RevForbidden string
 }
 
 func decide(m map[vt.T]vt.A, c cell, s plugSit) verdict {
@@ -238,6 +242,12 @@ func decide(m map[vt.T]vt.A, c cell, s plugSit) verdict {
 		if len(caps) == 0 {
 			return reject("plugin lacks verification capabilities")
 		}
+	}
+	switch {
+	case m[tRev] == "skip":
+		v.RevForbidden = "revocation is skipped by the level"
+	case caps[REV]:
+		v.RevForbidden = "the plugin owns revocation"
 	}
 	fail := func(t vt.T) bool {
 		v.Failed[t] = true
@@ -547,12 +557,10 @@ func (w *world) run(lv vt.Level, c cell) observation {
 	}
 	// 3. call logs
 	nRev := len(rv.Calls)
-	if !want.NativeRev && nRev != 0 {
-		why := "revocation is skipped by the level"
-		if lv.Map[tRev] != "skip" {
-			why = "the plugin owns revocation"
-		}
-		bad("calls/native-revocation-performed-though-"+strings.ReplaceAll(why, " ", "-"), fmt.Sprintf("%d validator calls", nRev))
+	if want.RevForbidden != "" && nRev != 0 {
+		bad("calls/native-revocation-performed-though-"+strings.ReplaceAll(want.RevForbidden, " ", "-"), fmt.Sprintf("%d validator calls", nRev))
+	} else if !want.NativeRev && nRev != 0 {
+		rec("calls/native-revocation-performed-after-the-verdict-was-already-a-rejection")
 	}
 	if want.NativeRev && obs.Accept && want.Accept && nRev == 0 {
 		bad("calls/native-revocation-count", "accepted without a single validator call although the level requires native revocation checking")
